@@ -34,20 +34,33 @@ def pick_aad(rng):
 
 def gen_cases(rng, tier, scale=1):
     cases = []
-    ncombo = 2 if tier == "quick" else 4
+    ncombo = 4
     for n in range(0, 17 * 16 + 1):                       # every length 0..272
         for j in range(ncombo * scale):
             cases.append(mk(rng, n, pick_aad(rng), COMBOS[(n + n // 16 + 2 * j + j // 2) % 4], "len 0..272"))
     for idx, n in enumerate(LEN_LOOP):                    # around the by-8 / by-16 / by-48 loops
-        for j in range((1 if tier == "quick" else 4) * scale):
+        for j in range((2 if tier == "quick" else 4) * scale):
             cases.append(mk(rng, n, pick_aad(rng), COMBOS[(idx + j) % 4], "k*{128,256,768}+0..16"))
     for idx, a in enumerate(AAD_SET):                     # every AAD length of the boundary set
         for j in range(2 * scale):
             cases.append(mk(rng, rng.choice([0, 1, 15, 16, 17, 31, 32, 33, 48]) if j else rng.below(49), a,
                             COMBOS[(idx + 2 * j) % 4], "aad boundary set"))
-    for j in range({"quick": 40, "thorough": 500}[tier] * scale):
+    # counter-byte carry: J0 ends in 00000001, data block i uses counter 1+i, so the LOW BYTE of the
+    # big-endian counter wraps at block 255, 511, ...  Every family adds to that byte without carry
+    # on a fast path and takes a slow path when a group of 8/16/48 blocks would overflow it: block
+    # counts 239..257 and 495..513 put the wrap exactly at the end of the last group, at every
+    # position inside it, and inside a main-loop group (tails 0, 1, 15 bytes)
+    for base in (239, 495):
+        for nb in range(base, base + 19):
+            near = nb % 256 in (254, 255, 0, 1)
+            tails = (0, 1, 15) if (tier != "quick" or base == 239 or near) else ((0, 1, 15)[nb % 3],)
+            for t in tails:
+                for j in range((1 if tier == "quick" else 2) * scale):
+                    cases.append(mk(rng, 16 * nb + t, rng.choice([0, 0, 5, 16, 20]), COMBOS[(nb + t + j) % 4],
+                                    "counter low-byte carry (blocks 239..257, 495..513)"))
+    for j in range({"quick": 80, "thorough": 1500}[tier] * scale):
         cases.append(mk(rng, rng.below(4097), pick_aad(rng), COMBOS[j % 4], "len uniform <= 4096"))
-    for j in range({"quick": 40, "thorough": 400}[tier] * scale):
+    for j in range({"quick": 80, "thorough": 1200}[tier] * scale):
         cases.append(mk(rng, rng.below(200), rng.below(1025), COMBOS[j % 4], "aad uniform <= 1024"))
     return cases
 
@@ -67,7 +80,8 @@ def distribution(cases):
         n, a = len(c["data"]), len(c["aad"])
         G.bump(d["len_mod_16"], n % 16)
         G.bump(d["len_bucket"], "0" if n == 0 else "1-15" if n < 16 else "16-127" if n < 128 else "128-255" if n < 256 else
-               "256-767" if n < 768 else "768-2047" if n < 2048 else ">=2048")
+               "256-767" if n < 768 else "768-2047" if n < 2048 else "2048-3807" if n < 3808 else "3808-4127 (blocks 238..257)" if n < 4128 else
+               "4128-7903" if n < 7904 else ">=7904 (blocks 494..513)")
         G.bump(d["aad_len_bucket"], "0" if a == 0 else "1-15" if a < 16 else "16" if a == 16 else "17-63" if a < 64 else
                "64-257" if a < 258 else ">257")
         G.bump(d["tag"], c["tag"])
@@ -94,7 +108,7 @@ def run(tier, replay=None):
         for c, v, detail in oc.wb[:1]:
             rep.violation("white-box: " + detail, {"correspondence": "context vs model", "detail": detail, "case": G.case_json(c, v)}, no_input=True)
         return rep.finish()
-    cases = gen_cases(rng, tier)
+    cases = G.corpus("C02", False) + gen_cases(rng, tier)
     oc = G.evaluate(rep, runner, cases, rng, "C02")
     G.check_bindings(rep, oc)
     nobs = G.report_observables(rep, runner, oc, "C02", ORACLE)
@@ -112,7 +126,9 @@ def run(tier, replay=None):
     rep.cov["rule"] = ("case = (key 128/256, 12-byte IV, AAD, data, enc/dec, tag 8/12/16); every case is run on: each of the 4 families "
                        "(regular entry point with every buffer flush against an inaccessible page, regular with random in-place/offset "
                        "placement, _nt with 64-byte aligned buffers), the public isal_ entry point and the legacy name under a rotating "
-                       "virtual CPUID preset (regular and _nt); lengths: every len 0..272, k*{128,256,768}+0..16 (k=1..3), uniform <= 4096; "
+                       "virtual CPUID preset (regular and _nt); lengths: every len 0..272, k*{128,256,768}+0..16 (k=1..3), uniform <= 4096, "
+                       "block counts 239..257 and 495..513 with tails 0/1/15 (the low byte of the counter wraps at the end of / inside the "
+                       "last group / inside a main-loop group); "
                        "AAD lengths: every value of {0..33,47..49,63..65,127..129,255..257}, uniform <= 1024; every encryption is also "
                        "decrypted by the same implementation; plus AAD of 2^29-1 / 2^29 zero bytes on every family; "
                        "distinct = distinct (case, implementation variant, placement); non-trivial = len + aad_len > 0")
@@ -128,7 +144,7 @@ def run(tier, replay=None):
                        "case": G.case_json(c, v), "differences": len(oc.wb)}, no_input=True)
     rep.assumptions = ["the four assembly families are modelled by one Gallina function per entry point; they are tied to it only on the generated cases",
                        "GHASH reduction / carry-less multiply defects that need particular data are sampled (random data), not excluded",
-                       "lengths above 4 KiB, AAD above 1 KiB (other than the 2^29 zero-byte probe) and len > 2^32 are not exercised",
+                       "lengths above 8.2 KiB, AAD above 1 KiB (other than the 2^29 zero-byte probe) are not exercised; the 32-bit counter wrap itself needs 2^32 blocks (64 GiB) with a 12-byte IV and is not reachable",
                        "the context left by a one-shot call is not compared (the vaes_avx512 one-shot does not maintain it); the context after finalize is not compared",
                        "a fault, a clobbered canary or a modified input buffer is reported as a violation of this property"]
     return rep.finish()
